@@ -4,6 +4,7 @@
 package streamsim
 
 import (
+	"bufio"
 	"bytes"
 	"encoding/json"
 	"errors"
@@ -49,6 +50,7 @@ type pattern struct {
 	Zero     bool   // sprinkle (0, nil) reads, never more than 3 in a row
 	EOFJoin  bool   // deliver the final bytes together with the terminal error
 	ErrAtEnd error  // nil = io.EOF
+	Bufio    int    // > 0: the caller hands Parse a *bufio.Reader of this size around the stream
 }
 
 func (p pattern) String() string {
@@ -56,7 +58,7 @@ func (p pattern) String() string {
 	if p.ErrAtEnd != nil {
 		e = "err"
 	}
-	return fmt.Sprintf("kind=%d size=%d zero=%v join=%v end=%s", p.Kind, p.Size, p.Zero, p.EOFJoin, e)
+	return fmt.Sprintf("kind=%d size=%d zero=%v join=%v end=%s bufio=%d", p.Kind, p.Size, p.Zero, p.EOFJoin, e, p.Bufio)
 }
 
 type faultReader struct {
@@ -230,6 +232,10 @@ func drawPattern(tp *tape.Tape) pattern {
 	p.Seed = uint64(tp.Draw(1<<16, "chunk.seed"))
 	p.Zero = tp.Chance(1, 4, "chunk.zero")
 	p.EOFJoin = tp.Chance(1, 3, "chunk.eofjoin")
+	if tp.Chance(1, 5, "chunk.bufio") {
+		// callers commonly wrap files and sockets in a bufio.Reader themselves
+		p.Bufio = []int{16, 4096, 65536}[tp.Draw(3, "chunk.bufiosize")]
+	}
 	return p
 }
 
@@ -323,7 +329,11 @@ func Run(cfg harness.Config, idx int, tp *tape.Tape) harness.Result {
 			return false
 		}
 		fr := newFaultReader(data, k, p)
-		got, to := parseWith("f.d2", fr, utf16pos)
+		var rd io.Reader = fr
+		if p.Bufio > 0 {
+			rd = bufio.NewReaderSize(fr, p.Bufio)
+		}
+		got, to := parseWith("f.d2", rd, utf16pos)
 		parses++
 		res.Steps += fr.calls
 		if to {
